@@ -39,9 +39,9 @@ def size21(rng, big):
     if r < 0.15:
         return rng.choice([0, 1, 7, 8])
     if r < 0.25:
-        return rng.choice([9, 14, 15, 1784, 1785] if big else [9, 14, 15, 16, 21, 22])
-    if big and r < 0.35:
-        return rng.randint(200, 1785)
+        return rng.choice([9, 14, 15, 1779, 1780, 1784, 1785, 1785] if big else [9, 14, 15, 16, 21, 22])       # (1779..1785 bytes = 255 packets)
+    if big and r < 0.45:
+        return rng.choice([1785, 1779, rng.randint(200, 1785)])
     return rng.randint(9, 120)
 
 
